@@ -23,3 +23,28 @@ package cfeminter
 //@   ensures forall d: str :: {$supply[d]} d != $minterParams.MintDenom ==> $supply[d] == old($supply[d])
 //@   ensures Jstore($minterParams, $minterState)
 //@   prop C18 C01 C10
+
+//@ // ---- C12: genesis import stores exactly the state and history of the genesis, export returns exactly what is stored ----
+//@ func InitGenesis(ctx, k, ak, genState)
+//@   requires forall i: int :: {genState.StateHistory[i]} 0 <= i && i < len(genState.StateHistory) ==> genState.StateHistory[i] != nil
+//@   requires forall i: int, j: int :: {genState.StateHistory[i], genState.StateHistory[j]} 0 <= i && i < j && j < len(genState.StateHistory) ==> genState.StateHistory[i].SequenceId != genState.StateHistory[j].SequenceId
+//@   modifies $minterState, $histPresent, $histMinted, $histRemFrom, $histRemTo, $kvHas, $kvVal, elems(genState.Params.Minters), $accTag, $accNum, $accSeq, $accPub, $accNextNum, $accModName
+//@   ensures [state] $minterState == genState.MinterState
+//@   ensures [history] forall i: int :: {genState.StateHistory[i]} 0 <= i && i < len(genState.StateHistory) ==> $histPresent[genState.StateHistory[i].SequenceId]
+//@     && $histMinted[genState.StateHistory[i].SequenceId] == genState.StateHistory[i].AmountMinted
+//@     && $histRemFrom[genState.StateHistory[i].SequenceId] == genState.StateHistory[i].RemainderFromPreviousMinter
+//@     && $histRemTo[genState.StateHistory[i].SequenceId] == genState.StateHistory[i].RemainderToMint
+//@   // (the parameters go through SetParams, whose error InitGenesis ignores: invalid parameters are not stored — C13)
+//@   prop C12
+//@ loop InitGenesis#1
+//@   invariant 0 <= \i && \i <= len(genState.StateHistory) && $minterState == genState.MinterState
+//@   invariant forall j: int :: {genState.StateHistory[j]} 0 <= j && j < \i ==> $histPresent[genState.StateHistory[j].SequenceId]
+//@     && $histMinted[genState.StateHistory[j].SequenceId] == genState.StateHistory[j].AmountMinted
+//@     && $histRemFrom[genState.StateHistory[j].SequenceId] == genState.StateHistory[j].RemainderFromPreviousMinter
+//@     && $histRemTo[genState.StateHistory[j].SequenceId] == genState.StateHistory[j].RemainderToMint
+//@ func ExportGenesis(ctx, k) (genesis)
+//@   ensures genesis != nil && genesis.MinterState == $minterState && genesis.Params == $minterParams
+//@   ensures forall i: int :: {genesis.StateHistory[i]} 0 <= i && i < len(genesis.StateHistory) ==> genesis.StateHistory[i] != nil && $histPresent[genesis.StateHistory[i].SequenceId]
+//@     && genesis.StateHistory[i].AmountMinted == $histMinted[genesis.StateHistory[i].SequenceId] && genesis.StateHistory[i].RemainderFromPreviousMinter == $histRemFrom[genesis.StateHistory[i].SequenceId]
+//@     && genesis.StateHistory[i].RemainderToMint == $histRemTo[genesis.StateHistory[i].SequenceId]
+//@   prop C12
